@@ -2484,7 +2484,7 @@ class UnionArrayType(ContentType):
     def is_recordtype(self):
         if all(x.is_recordtype for x in self.contenttypes):
             return True
-        elif all(not x.is_recordtype for x in self.contents):
+        elif all(not x.is_recordtype for x in self.contenttypes):
             return False
         else:
             return None
